@@ -74,6 +74,9 @@ def run(ctx):
                 "the binary reader asserts ARITY == 2 and its idx() (interpreted) rejects id 0, ids >= node_id and offsets beyond node_id.")
     ctx.explain("E-DDDMP.strictmode: every io::Error the exporter creates for a name it sanitises lies on the true edge of a test of "
                 "ExportSettings::strict and is unreachable from that test's false edge (the default export sanitises silently).")
+    ctx.explain("E-DDDMP.placeholder: the counter of leading underscores for invented variable names, interpreted over model names, always "
+                "exceeds the number of leading underscores of every existing name (an invented `_x1` can never equal a real name).")
+    edddmp.check_placeholder_underscores(ctx, F)
     ns = edddmp.check_strict_mode(ctx, F)
     ctx.floor("E-DDDMP.strictmode", "error creations in the exporter", ns, 4)
     nr = ebin.check_node_records(ctx, F)
